@@ -222,7 +222,14 @@ impl Gen {
     }
 
     fn gen_param_ty(&mut self) -> Ty {
-        self.gen_param_ty0()
+        // open finding (return-type dispatch with a nil argument): no parameter of type `T | []`
+        for _ in 0..6 {
+            let t = self.gen_param_ty0();
+            if !(t.contains_nil() && !t.is_nil()) {
+                return t;
+            }
+        }
+        Ty::Int
     }
 
     fn gen_param_ty0(&mut self) -> Ty {
